@@ -11,7 +11,7 @@ def queries(tier):
         qs.append(eq('endscope %s' % k, 'E2_tracked.cpp', 'harness_endscope', ENTRIES, [i, 0],
                      'endScope with a closing-scope entry of kind "%s": last measurements (-1/0/1 per qubit) and prior counts symbolic; exactly one '
                      'outcome recorded, the right one, other keys untouched' % k, tier, timeout=900, unwind=24))
-    for c in (range(9) if tier != 'quick' else []):   # qubit[] entries: no verdict within the quick budget (900 s each); thorough only
+    for c in (range(9) if tier != 'quick' else []):   # qubit[] entries: no verdict within 900 s; thorough only
         qs.append(eq('endscope tracked qubit[2] lm=(%d,%d)' % (c // 3 - 1, c % 3 - 1), 'E2_tracked.cpp', 'harness_endscope', ENTRIES, [2, c],
                      'endScope with a tracked qubit[2] whose elements\' last measurements are (%d,%d) (-1 = never): prior counts symbolic; exactly one '
                      'outcome, the bit string in index order or ?' % (c // 3 - 1, c % 3 - 1), tier, timeout=900, unwind=24))
